@@ -273,6 +273,67 @@ theorem leVal_leBytes (w : Nat) : ∀ n, n < 256 ^ w → leVal (leBytes w n) = n
       simp [UInt8.toNat_ofNat']
     rw [this]; omega
 
+/-! ### producers that read their tick -/
+
+theorem resolve_false (rs : List RStep) : resolve false rs = rs.map (·.plain) := by
+  cases rs <;> simp [resolve, RStep.play]
+
+/-- within a turn only the first `process()` sees the turn's first tick: the reactive turn is the plain turn on the
+resolved script -/
+theorem turnT_resolve (cap : Option Nat) (sz : Item → Nat) (rs : List RStep) :
+    ∀ tick told pos, turnT cap sz tick told pos rs = turn cap sz told pos (resolve tick rs) := by
+  induction rs with
+  | nil => intro _ _ _; rfl
+  | cons s r ih =>
+    intro tick told pos
+    simp only [turnT, resolve, turn]
+    cases processStep (s.play tick) with
+    | cont items =>
+      simp only
+      rw [ih, show Gen.C11.tickAfterProcess tick = false from rfl, resolve_false]
+    | done items => rfl
+    | fail items => rfl
+
+theorem serveT_eq (pool : Nat → Option Nat) (sz : Item → Nat) (pre : Nat) (rs : List RStep) :
+    serveT pool sz pre rs = serve pool sz pre (rs.map (·.plain)) := by
+  funext p
+  simp only [serveT, serve, turnT_resolve, show Gen.C11.contFirstTick = false from rfl, resolve_false, List.map_drop]
+
+/-- a first turn whose FIRST step is foreign to the server's script (it was played on another tick): following the
+tokens still yields that step and then the server's script from position 1 -/
+theorem follow_real_head (pool : Nat → Option Nat) (sz : Item → Nat) (pre : Nat) (steps : List Step)
+    (cap : Option Nat) (sz' : Item → Nat) (told fuel : Nat) (s : Step) (h : steps.length + 1 ≤ fuel) :
+    Http.follow (serve pool sz pre steps) fuel (turn cap sz' told 0 (s :: steps.drop 1))
+      = producer false (s :: steps.drop 1) := by
+  have hlen : (steps.drop 1).length ≤ fuel - 1 := by simp; omega
+  cases hact : s.act with
+  | emit bt =>
+    simp only [turn, processStep, hact, producer]
+    rw [List.append_assoc, List.append_assoc, follow_logs, List.singleton_append, follow_data, follow_logs]
+    split
+    · obtain ⟨f, rfl⟩ : ∃ f, fuel = f + 1 := ⟨fuel - 1, by omega⟩
+      simp only [Http.follow]
+      have e : serve pool sz pre steps (0 + 1) = turn (pool 1) sz pre 1 (steps.drop 1) := by simp [serve]
+      rw [e, follow_real pool sz pre steps (pool 1) sz pre 1 f (by simpa using hlen)]
+      simp [List.append_assoc]
+    · rw [follow_real pool sz pre steps cap sz' _ 1 fuel (by simp; omega)]
+      simp [List.append_assoc]
+  | finish =>
+    simp only [turn, processStep, hact, producer]
+    rw [follow_logs, ← List.append_nil (logItems s.post), follow_logs, follow_nil]
+    simp [List.append_assoc]
+  | emitFinish bt =>
+    simp only [turn, processStep, hact, producer]
+    rw [List.append_assoc, follow_logs, List.singleton_append, follow_data,
+      ← List.append_nil (logItems s.post), follow_logs, follow_nil]
+    simp [List.append_assoc]
+  | raise e =>
+    simp only [turn, processStep, hact, producer, failLogs]
+    rw [follow_logs, follow_err]
+  | nothing =>
+    simp only [turn, processStep, hact, producer, failLogs]
+    rw [follow_logs, follow_err]
+
 end Aux
 
 open Aux
@@ -295,7 +356,7 @@ theorem tell_on_ipc_sink : Gen.C11.tellOnIpcSink = true := by decide
 
 /-- the token is minted after the flush and after the `finished` exit; the mint branch writes the sentinel and breaks -/
 theorem loop_order :
-    Gen.C11.loopOrder = ["process", "validate", "ext_preflight", "flush", "finished_break", "decide", "mint", "sentinel", "break"] := by
+    Gen.C11.loopOrder = ["process", "tick_reset", "validate", "ext_preflight", "flush", "finished_break", "decide", "mint", "sentinel", "break"] := by
   decide
 
 /-- **the real turn is an oracle turn**: `_run_http_producer_turn` under cap/sizes is `Engine.Http.turn` under `brkOf` -/
@@ -420,6 +481,46 @@ theorem C11_turn_count : Spec.TurnsBoundedByBatches := by
   unfold initBody
   rw [countTurns_logs]
   exact count_pool pool sz pre steps steps 0 (steps.length + 1) cap0 sz _ (by simp) (by omega)
+
+/-! ### producers that read their tick -/
+
+/-- what `process()` receives, from the source: the tick is reset to the empty `_TICK_BATCH` right after every call, the
+`/init` turn starts with the request's metadata, a continuation turn with the empty tick -/
+theorem tick_shape :
+    (∀ t, Gen.C11.tickAfterProcess t = false) ∧ Gen.C11.initFirstTick = true ∧ Gen.C11.contFirstTick = false := by
+  refine ⟨fun _ => rfl, rfl, rfl⟩
+
+/-- **only the first call of a turn sees the turn's first tick**, for every cap, sizes and reactive script -/
+theorem C11_tick_only_first (cap : Option Nat) (sz : Item → Nat) (rs : List RStep) (tick : Bool) (told pos : Nat) :
+    turnT cap sz tick told pos rs = turn cap sz told pos (resolve tick rs) :=
+  turnT_resolve cap sz rs tick told pos
+
+/-- **C11 resume, reactive producers**: every resumed call sees the empty tick, on any pool of workers -/
+theorem C11_resume_reactive : Spec.ReactiveResumeYieldsTheRest := by
+  intro pool sz pre rs pos
+  rw [serveT_eq]
+  have := C11_resume pool sz pre (rs.map (·.plain)) pos
+  simpa using this
+
+/-- **C11 iterate, reactive producers**: whatever the caps (hence wherever the turn boundaries fall) the client observes
+the one run in which exactly the stream's first `process()` saw the init request's metadata -/
+theorem C11_iterate_reactive : Spec.ReactiveIteratesOneRun := by
+  intro cap0 pool sz pre initLogs rs
+  unfold iterateT
+  rw [serveT_eq, assemble_obs (serve pool sz pre (rs.map (·.plain))) (rs.length + 1) (initBodyT cap0 sz pre initLogs rs)]
+  unfold initBodyT
+  rw [follow_logs, turnT_resolve, show Gen.C11.initFirstTick = true from rfl]
+  cases rs with
+  | nil => simp [resolve, turn, producer, follow_nil]
+  | cons s r =>
+    have e : resolve true (s :: r) = s.play true :: ((s :: r).map (·.plain)).drop 1 := by simp [resolve]
+    rw [e, follow_real_head pool sz pre ((s :: r).map (·.plain)) cap0 sz _ _ (s.play true) (by simp)]
+
+/-- independent of every cap, size and number of turns -/
+theorem C11_chunking_reactive (cap0 cap0' : Option Nat) (pool pool' : Nat → Option Nat) (sz sz' : Item → Nat)
+    (pre pre' : Nat) (initLogs : List Log) (rs : List RStep) :
+    obs (iterateT cap0 pool sz pre initLogs rs) = obs (iterateT cap0' pool' sz' pre' initLogs rs) := by
+  rw [C11_iterate_reactive, C11_iterate_reactive]
 
 /-! ### resume blob -/
 
